@@ -302,18 +302,18 @@ func (w *MarkdownWriter) writeTable(table *document.Table) error {
 // writeSimpleTable 写入简单表格格式
 func (w *MarkdownWriter) writeSimpleTable(table *document.Table) error {
 	for i, row := range table.Rows {
-		if i == 0 {
-			w.output.WriteString("**")
-		}
+		var line strings.Builder
 		for j, cell := range row.Cells {
 			if j > 0 {
-				w.output.WriteString(" | ")
+				line.WriteString(" | ")
 			}
-			text := w.extractCellText(&cell)
-			w.output.WriteString(text)
+			line.WriteString(w.extractCellText(&cell))
 		}
 		if i == 0 {
-			w.output.WriteString("**")
+			w.output.WriteString("**" + line.String() + "**")
+		} else {
+			// 行首的 "-"、"+"、">"、"1." 等会被当作列表、引用的开始，需要转义
+			w.output.WriteString(escapeBlockStart(line.String()))
 		}
 		w.output.WriteString("\n")
 	}
